@@ -7,13 +7,20 @@ Correspondence between /repo/amaranth/lib/wiring.py and lean/AmaranthVerif/Model
   for the signature and for its flip                                  -> model `flatten`, spec `leafAt`/`flipLeaves`
 * `Signature.create()` (structure of the created object, proxies included) and `is_compliant`
   of created and of single-point-corrupted objects                      -> model `create`, `isCompliant`
+* objects made another way than `S.create()`: `PureInterface(S)`, a `Component` whose signature is S, and
+  `flipped()` of those built on `S.flip()` (S flipped or not): leaves, what every sub-interface says about its
+  own leaves through its own signature, compliance, structure           -> the same leaves (model/spec of S),
+                                                                           model `isCompliant` on the harness mirror
 * `connect(m, ...)`: accepted / error kind, the assignments added to the module, and a simulation
   in which every output leaf is set and every leaf read back           -> model `connect`, spec `Accepts`/`conns`
 * `Component.metadata.as_json()` port records + schema validation       -> model `metadata`
 
 Signature trees are abstract (plain dicts); the amaranth objects are *built* from them, and the
-same tree is serialised for the driver.  Classes of known defects: F10 (array of sub-interfaces
-seen through a FlippedInterface), F13 (connect() below an array of sub-interfaces).
+same tree is serialised for the driver.  Port shapes include shape-castables whose default constant
+(no `init=`) is not 0: `data.Struct` / `data.Union` classes with field defaults and a user-defined
+ShapeCastable; the expected initial value is computed here from field defaults and offsets.
+Classes of known defects: F10 (array of sub-interfaces seen through a FlippedInterface), F13
+(connect() below an array of sub-interfaces).
 """
 import concurrent.futures
 import os
@@ -31,6 +38,40 @@ NAMES = ["a", "b", "a_", "aB", "B", "data", "valid", "x", "y", "A1", "ab", "z9"]
 # abstract shapes: spec -> (amaranth shape object, width, signed, init value as `_init_as_const.value`)
 
 _ENUM_CACHE = {}
+_AGG_CACHE = {}          # data.Struct / data.Union classes with field defaults (compared by identity)
+_CAST_CACHE = {}
+_CUSTOM = []
+
+
+def _custom_castable():
+    """a minimal user-defined ShapeCastable: plain shape, values are bare Values, and a default constant
+    (`const(None)`) of its own"""
+    if not _CUSTOM:
+        from amaranth.hdl import Shape, ShapeCastable, Const, Value, Format
+
+        class Custom(ShapeCastable):
+            def __init__(self, w, sg, dv):
+                self.w, self.sg, self.dv = w, sg, dv
+
+            def as_shape(self):
+                return Shape(self.w, self.sg)
+
+            def __call__(self, target):
+                return target
+
+            def const(self, init):
+                return Const(self.dv if init is None else init, self.as_shape())
+
+            def from_bits(self, raw):
+                return Const(raw, self.as_shape())
+
+            def format(self, value, format_spec):
+                return Format("{}", Value.cast(value))
+
+            def __repr__(self):
+                return f"Custom({self.w}, {self.sg}, {self.dv})"
+        _CUSTOM.append(Custom)
+    return _CUSTOM[0]
 
 
 def _pick_init(rng, lo, hi, p_none=.35):
@@ -43,10 +84,52 @@ def _pick_init(rng, lo, hi, p_none=.35):
 
 def gen_shape(rng, signed_bias=False):
     """returns (spec, raw_init) ; raw_init is what is passed as init= (None allowed)"""
-    kinds = ["u", "u", "u", "s", "int", "range", "struct", "arrl", "union", "enum", "enum_s"]
+    kinds = ["u", "u", "u", "s", "int", "range", "struct", "arrl", "union", "enum", "enum_s",
+             "structc", "structc", "unionc", "cast"]
     if signed_bias:
         kinds += ["s", "s", "enum_s", "enum_s", "range"]
     k = rng.choice(kinds)
+    if k == "structc":
+        # a data.Struct *class* whose fields have defaults: the constant of `init=None` is not 0
+        fields = []
+        for i in range(rng.randint(1, 3)):
+            sg = rng.random() < .35
+            w = rng.choice([1, 2, 3, 4]) if sg else rng.choice([0, 1, 2, 4, 4])
+            lo, hi = (-(1 << (w - 1)), (1 << (w - 1)) - 1) if sg else (0, (1 << w) - 1)
+            dv = None
+            if w > 0 and rng.random() < .75:
+                dv = rng.choice([v for v in (lo, hi, -1, 1, hi - 1, lo + 1) if lo <= v <= hi and v != 0] or [None]) \
+                    if rng.random() < .6 else rng.randint(lo, hi)
+            fields.append((f"f{i}", w, sg, dv))
+        init = None
+        if rng.random() < .4:
+            init = {}
+            for n, w, sg, _dv in fields:
+                if rng.random() < .5 and w > 0:
+                    init[n] = (_pick_init(rng, -(1 << (w - 1)), (1 << (w - 1)) - 1, 0) if sg
+                               else _pick_init(rng, 0, (1 << w) - 1, 0))
+            if not init:
+                init = None
+        return {"k": "structc", "fields": fields}, init
+    if k == "unionc":
+        # a data.Union class: at most one field may have a default
+        fields = [[f"u{i}", rng.choice([1, 2, 4]), False, None] for i in range(rng.randint(1, 3))]
+        if rng.random() < .8:
+            f = rng.choice(fields)
+            f[3] = rng.choice([1, (1 << f[1]) - 1, rng.randrange(1 << f[1])])
+        fields = [tuple(f) for f in fields]
+        init = None
+        if rng.random() < .35:
+            n, w, _sg, _dv = rng.choice(fields)
+            init = {n: rng.randrange(1 << w)}
+        return {"k": "unionc", "fields": fields}, init
+    if k == "cast":
+        # a custom ShapeCastable whose `const(None)` is its own default
+        sg = rng.random() < .4
+        w = rng.choice([1, 2, 3, 4, 8])
+        lo, hi = (-(1 << (w - 1)), (1 << (w - 1)) - 1) if sg else (0, (1 << w) - 1)
+        dv = rng.choice([lo, hi, -1 if sg else 1, rng.randint(lo, hi)])
+        return {"k": "cast", "w": w, "sg": sg, "dv": dv}, _pick_init(rng, lo, hi, .6)
     if k == "u":
         w = rng.choice([0, 1, 1, 2, 3, 4, 8, 9])
         return {"k": "u", "w": w}, (None if w == 0 else _pick_init(rng, 0, (1 << w) - 1, .5))
@@ -117,6 +200,22 @@ def shape_obj(spec):
         return data.UnionLayout({n: unsigned(w) for n, w, sg in spec["fields"]})
     if k == "arrl":
         return data.ArrayLayout(unsigned(spec["w"]), spec["n"])
+    if k in ("structc", "unionc"):
+        key = (k, tuple(tuple(f) for f in spec["fields"]))
+        if key not in _AGG_CACHE:
+            name = f"{'St' if k == 'structc' else 'Un'}{len(_AGG_CACHE)}"
+            body = "\n".join(f"    {n}: {'signed' if sg else 'unsigned'}({w})" + ("" if dv is None else f" = {dv}")
+                             for n, w, sg, dv in spec["fields"])
+            ns = {}
+            exec(f"class {name}(data.{'Struct' if k == 'structc' else 'Union'}):\n{body}",
+                 {"data": data, "signed": signed, "unsigned": unsigned}, ns)
+            _AGG_CACHE[key] = ns[name]
+        return _AGG_CACHE[key]
+    if k == "cast":
+        key = (spec["w"], spec["sg"], spec["dv"])
+        if key not in _CAST_CACHE:
+            _CAST_CACHE[key] = _custom_castable()(*key)
+        return _CAST_CACHE[key]
     if k == "enum":
         key = (spec["w"], spec["sg"], tuple(spec["vals"]))
         if key not in _ENUM_CACHE:
@@ -179,6 +278,27 @@ def shape_info(spec, raw):
         return spec["w"] * spec["n"], False, v
     if k == "enum":
         return spec["w"], spec["sg"], (raw or 0)
+    if k == "structc":
+        # fields are packed in declaration order from bit 0; a field not named by the initial value keeps
+        # the default written in the class body (0 when it has none)
+        off = 0; v = 0
+        for n, w, sg, dv in spec["fields"]:
+            fv = raw[n] if (raw is not None and n in raw) else (dv if dv is not None else 0)
+            v |= (fv & ((1 << w) - 1)) << off
+            off += w
+        return off, False, v
+    if k == "unionc":
+        # all fields at bit 0; an initial value names one field, otherwise the (single) default applies
+        v = 0
+        for n, fw, _sg, dv in spec["fields"]:
+            if raw:
+                if n in raw:
+                    v = raw[n] & ((1 << fw) - 1)
+            elif dv is not None:
+                v = dv & ((1 << fw) - 1)
+        return max(fw for _n, fw, _sg, _dv in spec["fields"]), False, v
+    if k == "cast":
+        return spec["w"], spec["sg"], (spec["dv"] if raw is None else raw)
     raise AssertionError(k)
 
 
@@ -293,7 +413,9 @@ def mk_arr(dims, leaf_fn):
     return {"t": "arr", "items": [mk_arr(dims[1:], leaf_fn) for _ in range(dims[0])]}
 
 
-def create_attrs(sig):
+def create_attrs(sig, fl=False):
+    """attributes made by `members.create()` of a signature seen with `fl` (only the top level of an
+    object built *directly* on a flipped signature is seen flipped; what is below is made by `.create()`)"""
     attrs = []
     for n, m in sig:
         if m["t"] == "port":
@@ -301,7 +423,7 @@ def create_attrs(sig):
             attrs.append((n, mk_arr(m["dims"], lambda m=m, w=w, sg=sg, iv=iv: {"t": "signal", "w": w, "s": sg, "init": iv,
                                                                           "shape": m["shape"]})))
         else:
-            attrs.append((n, mk_arr(m["dims"], lambda m=m: {"t": "iface", "w": sub_flag(False, m["f"], m["df"]),
+            attrs.append((n, mk_arr(m["dims"], lambda m=m: {"t": "iface", "w": sub_flag(fl, m["f"], m["df"]),
                                                             "fl": False, "sig": m["sig"],
                                                             "attrs": create_attrs(m["sig"])})))
     return attrs
@@ -309,6 +431,96 @@ def create_attrs(sig):
 
 def create_obj(fl, sig):
     return {"t": "iface", "w": fl, "fl": False, "sig": sig, "attrs": create_attrs(sig)}
+
+
+def direct_obj(fl, sig):
+    """the object `PureInterface(S)` / `Component(S)` for S = (fl, sig): not wrapped, its `signature` is S itself,
+    and the members are created from S's (flipped, if fl) member collection"""
+    return {"t": "iface", "w": False, "fl": fl, "sig": sig, "attrs": create_attrs(sig, fl)}
+
+
+# ways of making an interface object for a signature S other than `S.create()`
+ROUTES = ("pure", "comp", "fpure", "fcomp")
+
+
+def route_obj(S, route, path=None):
+    from amaranth.lib import wiring
+    kw = {} if path is None else {"path": path}
+
+    def component(SS):
+        class C(wiring.Component):
+            def __init__(self):
+                super().__init__(SS)
+        return C()
+    if route == "create":
+        return S.create(**kw)
+    if route == "pure":
+        return wiring.PureInterface(S, **kw)
+    if route == "comp":
+        return component(S)
+    if route == "fpure":
+        return wiring.flipped(wiring.PureInterface(S.flip(), **kw))
+    if route == "fcomp":
+        return wiring.flipped(component(S.flip()))
+    raise AssertionError(route)
+
+
+def route_direct_flipped(route, vfl):
+    """is the signature handed to the constructor (PureInterface / Component.__init__) a flipped one,
+    when an object for a signature seen with `vfl` is made by `route`?"""
+    return {"create": None, "pure": vfl, "comp": vfl, "fpure": not vfl, "fcomp": not vfl}[route]
+
+
+def has_iface(sig):
+    return any(m["t"] == "iface" for _n, m in sig)
+
+
+def iface_prefixes(sig, pre=()):
+    """paths of all sub-interface objects, pre-order (the harness's own reading of the tree)"""
+    for n, m in sig:
+        if m["t"] != "iface":
+            continue
+
+        def idx(dims):
+            if not dims:
+                yield ()
+            else:
+                for i in range(dims[0]):
+                    for r in idx(dims[1:]):
+                        yield (i,) + r
+        for ix in idx(m["dims"]):
+            yield pre + (n,) + ix
+            yield from iface_prefixes(m["sig"], pre + (n,) + ix)
+
+
+def expected_nested(sig, leaves):
+    """what every sub-interface must report about its own leaves, given the leaves of the whole (driver's
+    rendering `path=flow:w:s:init;...`): exactly the leaves of the whole that lie below it"""
+    ls = [] if leaves == "-" else leaves.split(";")
+    out = []
+    for p in iface_prefixes(sig):
+        pp = pstr(p) + "."
+        out.append(pstr(p) + "|" + (";".join(x for x in ls if x.startswith(pp)) or "-"))
+    return "&".join(out) or "-"
+
+
+def nz_default_ports(sig):
+    """number of port members without an explicit initial value whose shape's default constant is not 0"""
+    n = 0
+    for _n, m in sig:
+        if m["t"] == "port":
+            n += int(m["init"] is None and shape_info(m["shape"], None)[2] != 0)
+        else:
+            n += nz_default_ports(m["sig"])
+    return n
+
+
+def port_members(sig):
+    for _n, m in sig:
+        if m["t"] == "port":
+            yield m
+        else:
+            yield from port_members(m["sig"])
 
 
 def ser_obj(o):
@@ -329,13 +541,17 @@ class Plain:
     pass
 
 
+# shapes for which `Signature.create()` puts a view (not a bare Signal) into the interface
+VIEW_KINDS = ("struct", "union", "arrl", "enum", "structc", "unionc")
+
+
 def view_signal(spec, w, sg, init):
     """a signal of width/signedness (w, sg) with constant initial value `init`; when `spec` is an
     aggregate or enumeration of exactly that shape the signal is wrapped in its view (what
     `Signature.create()` puts into an interface for such a port), otherwise it is a bare Signal"""
     from amaranth.hdl import Signal, Shape
     sig = Signal(Shape(w, sg), init=init)
-    if spec is not None and spec["k"] in ("struct", "union", "arrl", "enum"):
+    if spec is not None and spec["k"] in VIEW_KINDS:
         sw, ssg, _ = shape_info(spec, None)
         if (sw, ssg) == (w, sg):
             return shape_obj(spec)(sig)
@@ -527,16 +743,76 @@ def errname(e):
 # ------------------------------------------------------------------------------------------------
 # the amaranth side of the cases (runs in worker processes)
 
-def impl_flatten(S, obj):
+def impl_flatten(S, obj, pre=()):
     from amaranth.hdl import Value, Shape, Const
     out = []
     for p, m, v in S.flatten(obj):
         c = Value.cast(v)
         sh = Shape.cast(m.shape)
         iv = c.value if isinstance(c, Const) else c.init
-        assert iv == m._init_as_const.value or isinstance(c, Const), ("member/signal init differ", p)
-        out.append(f"{pstr(p)}={'o' if m.flow.name == 'Out' else 'i'}:{sh.width}:{'s' if sh.signed else 'u'}:{iv}")
+        if not isinstance(c, Const) and iv != m._init_as_const.value:
+            # the member yielded by flatten() and the signal found at that place disagree
+            return f"error:member-init:{pstr(pre + tuple(p))}:member={m._init_as_const.value}:signal={iv}"
+        out.append(f"{pstr(pre + tuple(p))}={'o' if m.flow.name == 'Out' else 'i'}:{sh.width}:{'s' if sh.signed else 'u'}:{iv}")
     return ";".join(out) or "-"
+
+
+def impl_nested(obj, sig):
+    """every sub-interface object, reached by attribute access and indexing from `obj` (pre-order), asked about
+    its own leaves through its *own* signature: `sub.signature.flatten(sub)`; paths prefixed with the way there"""
+    out = []
+
+    def walk(o, sg, pre):
+        for n, m in sg:
+            if m["t"] != "iface":
+                continue
+            try:
+                v = getattr(o, n)
+            except Exception as e:
+                out.append(f"{pstr(pre + (n,))}|error:{errname(e)}")
+                continue
+
+            def rec(v, dims, p):
+                if dims:
+                    for i in range(dims[0]):
+                        try:
+                            x = v[i]
+                        except Exception as e:
+                            out.append(f"{pstr(p + (i,))}|error:{errname(e)}")
+                            continue
+                        rec(x, dims[1:], p + (i,))
+                    return
+                try:
+                    leaves = impl_flatten(v.signature, v, p)
+                except Exception as e:
+                    leaves = "error:" + errname(e)
+                out.append(f"{pstr(p)}|{leaves}")
+                walk(v, m["sig"], p)
+            rec(v, m["dims"], pre + (n,))
+    walk(obj, sig, ())
+    return "&".join(out) or "-"
+
+
+def observe_route(SS, route, sig):
+    """an object for the signature SS made by `route`: its leaves, its sub-interfaces' leaves, compliance"""
+    try:
+        obj = route_obj(SS, route)
+    except Exception as e:
+        return {"build": "error:" + errname(e) + ":" + str(e)[:80]}
+    ob = {}
+    try:
+        ob["top"] = impl_flatten(SS, obj)
+    except Exception as e:
+        ob["top"] = "error:" + errname(e)
+    try:
+        ob["nested"] = impl_nested(obj, sig)
+    except Exception as e:
+        ob["nested"] = "error:" + errname(e)
+    try:
+        ob["compliant"] = "ok:" + str(int(SS.is_compliant(obj)))
+    except Exception as e:
+        ob["compliant"] = "error:" + type(e).__name__
+    return ob
 
 
 def case_flatten(fl, sig):
@@ -546,11 +822,13 @@ def case_flatten(fl, sig):
     except Exception as e:
         rec["build_error"] = errname(e) + ":" + str(e)[:120]
         return rec
+    rec["routes"] = {}
     for key, SS in (("flat", S), ("flip", S.flip())):
         try:
             rec[key] = impl_flatten(SS, SS.create())
         except Exception as e:
             rec[key] = "error:" + errname(e)
+        rec["routes"][key] = {r: observe_route(SS, r, sig) for r in ("create",) + ROUTES}
     try:
         rec["flipflip"] = (S.flip().flip() is S) or (S.flip().flip() == S)
     except Exception as e:
@@ -568,6 +846,29 @@ def case_create(fl, sig):
         rec["compliant"] = "ok:" + str(int(S.is_compliant(obj)))
     except Exception as e:
         rec["compliant"] = "error:" + type(e).__name__
+    return rec
+
+
+def case_create_direct(fl, sig):
+    """objects built directly on the signature value (fl, sig): PureInterface(S), a Component whose signature is S"""
+    mirror = ser_obj(direct_obj(fl, sig))
+    rec = {"kind": "create_direct", "req": f"(compliant {ser_sv(fl, sig)} {mirror})", "fl": fl, "sig": sig,
+           "mirror": mirror, "objs": {}}
+    S = build_sig(sig, fl)
+    for route in ("pure", "comp"):
+        ob = {}
+        try:
+            obj = route_obj(S, route)
+            ob["obj"] = ser_real(obj, sig)
+        except Exception as e:
+            ob["crash"] = errname(e) + ":" + str(e)[:100]
+            rec["objs"][route] = ob
+            continue
+        try:
+            ob["compliant"] = "ok:" + str(int(S.is_compliant(obj)))
+        except Exception as e:
+            ob["compliant"] = "error:" + type(e).__name__
+        rec["objs"][route] = ob
     return rec
 
 
@@ -597,8 +898,9 @@ def ser_args(args):
     return "(connect " + " ".join(out) + ")"
 
 
-def run_connect(args, order, rng_seed, simulate, obj_edit=None):
-    """build the real objects, connect them in `order`; returns observation dict"""
+def run_connect(args, order, rng_seed, simulate, obj_edit=None, routes=None):
+    """build the real objects (argument h by `routes[h]`, default `S.create()`), connect them in `order`;
+    returns observation dict"""
     from amaranth.hdl import Module, Const, Signal, Value, Shape
     from amaranth.lib import wiring
     from amaranth.sim import Simulator
@@ -608,7 +910,7 @@ def run_connect(args, order, rng_seed, simulate, obj_edit=None):
     leaves = {}        # (handle, path) -> dict(kind, value object, w, init)
     for h, (fl, sig, consts) in enumerate(args):
         S = build_sig(sig, fl)
-        obj = S.create(path=(f"h{h}",))
+        obj = route_obj(S, routes[h] if routes else "create", path=(f"h{h}",))
         for p, container, key, m in raw_leaves(obj, sig):
             w, sg, iv = shape_info(m["shape"], m["init"])
             if obj_edit is not None and obj_edit[0] == h and obj_edit[1] == p:
@@ -694,10 +996,10 @@ def run_connect(args, order, rng_seed, simulate, obj_edit=None):
     return res
 
 
-def case_connect(args, label, seed, simulate):
-    rec = {"kind": "connect", "req": ser_args(args), "label": label, "args": args}
+def case_connect(args, label, seed, simulate, routes=None):
+    rec = {"kind": "connect", "req": ser_args(args), "label": label, "args": args, "routes": routes}
     try:
-        rec["impl"] = run_connect(args, list(range(len(args))), seed, simulate)
+        rec["impl"] = run_connect(args, list(range(len(args))), seed, simulate, routes=routes)
     except Exception as e:
         rec["impl"] = {"result": "error:build:" + errname(e), "msg": str(e)[:160]}
         return rec
@@ -707,7 +1009,7 @@ def case_connect(args, label, seed, simulate):
         order.reverse()
     rec["order"] = order
     try:
-        rec["perm"] = run_connect(args, order, seed, False)
+        rec["perm"] = run_connect(args, order, seed, False, routes=routes)
     except Exception as e:
         rec["perm"] = {"result": "error:build:" + errname(e)}
     return rec
@@ -731,7 +1033,7 @@ def abs_edit(o, path, fn):
 
 
 def is_view_shape(spec):
-    return spec["k"] in ("struct", "union", "arrl", "enum")
+    return spec["k"] in VIEW_KINDS
 
 
 def obj_corruptions(rng, args):
@@ -780,10 +1082,11 @@ def case_connect_obj(args, edit, seed):
     return rec
 
 
-def case_meta(sig, validate_mutant):
+def case_meta(sig, validate_mutant, fl=False):
+    """metadata of a Component whose signature is (fl, sig) (fl: the component is built on a flipped signature)"""
     from amaranth.lib import wiring
-    rec = {"kind": "meta", "req": f"(flatten {ser_sv(False, sig)})", "sig": sig, "fl": False}
-    S = build_sig(sig, False)
+    rec = {"kind": "meta", "req": f"(flatten {ser_sv(fl, sig)})", "sig": sig, "fl": fl}
+    S = build_sig(sig, fl)
 
     class C(wiring.Component):
         def __init__(self):
@@ -1038,6 +1341,12 @@ def work(seed, n_trees, n_tuples, n_meta, quick):
         except Exception as e:
             recs.append({"kind": "create", "req": f"(create {ser_sv(fl, sig)})", "fl": fl, "sig": sig,
                          "crash": errname(e) + ":" + str(e)[:100]})
+        for dfl in (fl, not fl):
+            try:
+                recs.append(case_create_direct(dfl, sig))
+            except Exception as e:
+                recs.append({"kind": "create_direct", "req": f"(compliant {ser_sv(dfl, sig)} {ser_obj(direct_obj(dfl, sig))})",
+                             "fl": dfl, "sig": sig, "crash": errname(e) + ":" + str(e)[:100]})
         base = create_obj(fl, sig)
         for _c in range(3):
             r = corrupt_obj(rng, base)
@@ -1051,14 +1360,20 @@ def work(seed, n_trees, n_tuples, n_meta, quick):
     for _ in range(n_tuples):
         args = gen_tuple(rng, quick)
         recs.append(case_connect(args, "base", rng.randrange(1 << 30), True))
+        # the same tuple, every argument made another way than `S.create()`
+        recs.append(case_connect(args, "base", rng.randrange(1 << 30), True, routes=[rng.choice(ROUTES) for _ in args]))
         for label, a in corruptions(rng, args):
-            recs.append(case_connect(a, label, rng.randrange(1 << 30), label in ("signedness", "add-const", "drop-const", "flip-port", "shuffle-members")))
+            sim = label in ("signedness", "add-const", "drop-const", "flip-port", "shuffle-members")
+            recs.append(case_connect(a, label, rng.randrange(1 << 30), sim))
+            if rng.random() < .3:
+                recs.append(case_connect(a, label, rng.randrange(1 << 30), sim,
+                                         routes=[rng.choice(("create",) + ROUTES) for _ in a]))
         if True:
             for _label, edit in obj_corruptions(rng, args):
                 recs.append(case_connect_obj(args, edit, rng.randrange(1 << 30)))
     for i in range(n_meta):
         sig = gen_sig(rng, rng.choice([1, 2, 3, 4]), False, signed_bias=(i % 2 == 0))
-        recs.append(case_meta(sig, i % 4 == 0))
+        recs.append(case_meta(sig, i % 4 == 0, fl=rng.random() < .4))
     return recs
 
 
@@ -1157,6 +1472,37 @@ def run(chk):
                     report("flatten", "flatten agrees with the spec but not with the model", rec, resp, set(), False)
             if rec["flipflip"] is not True:
                 report("flipflip", f"sig.flip().flip() is not sig: {rec['flipflip']}", rec, resp, set(), True)
+            for m_ in port_members(sig):
+                chk.hist("port_shape_kind", m_["shape"]["k"])
+                _w, _sg, iv0 = shape_info(m_["shape"], None)
+                chk.hist("port_init", "explicit" if m_["init"] is not None else
+                         ("default:nonzero:" + m_["shape"]["k"] if iv0 != 0 else "default:0"))
+            chk.hist("trees_with_nonzero_default_port", nz_default_ports(sig) > 0)
+            # objects made in other ways than S.create(): PureInterface(S), a Component on S, and the flipped()
+            # of those built on S.flip().  Same leaves, every sub-interface agrees about its own leaves, complies.
+            for key, skey, vfl in (("flat", "spec", fl), ("flip", "specflip", not fl)):
+                want_nested = expected_nested(sig, d[skey])
+                for route, ob in rec["routes"][key].items():
+                    dfl = route_direct_flipped(route, vfl)
+                    how = (f"{route} on {'a flipped' if dfl else 'an unflipped'} signature" if dfl is not None else "create()") + \
+                          f" for the {'flipped ' if key == 'flip' else ''}signature"
+                    chk.hist("object_route", f"{route}/{'direct-on-flipped' if dfl else 'direct-on-plain' if dfl is not None else 'create'}"
+                                             f"/{'sub-ifaces' if has_iface(sig) else 'no-sub-ifaces'}")
+                    if "build" in ob:
+                        report("route", f"building an interface object ({how}) failed: {ob['build']}", rec, resp, set(), True)
+                        continue
+                    f10c = lambda txt: ({"F10"} if ("F10:TypeError" in txt and has_iface_array(sig)) else set())
+                    if ob["top"] != d[skey]:
+                        report("route-flatten", f"Signature.flatten of an object made by {how} is {ob['top'][:80]!r}, "
+                               f"the leaves are {d[skey][:80]!r}", {**rec, "route": route, "view": key}, resp, f10c(ob["top"]), True)
+                    if ob["nested"] != want_nested:
+                        report("route-nested", f"sub-interfaces of an object made by {how} report their own leaves as "
+                               f"{ob['nested'][:100]!r}, the leaves of the whole below them are {want_nested[:100]!r}",
+                               {**rec, "route": route, "view": key, "expected_nested": want_nested}, resp, f10c(ob["nested"]), True)
+                    if ob["compliant"] != "ok:1":
+                        report("route-compliant", f"an object made by {how} does not comply with it: is_compliant gives "
+                               f"{ob['compliant']}", {**rec, "route": route, "view": key}, resp,
+                               {"F10"} if (ob["compliant"] == "error:TypeError" and has_iface_array(sig)) else set(), True)
             if len(chk.cov["samples"]) < 2:
                 chk.sample({"request": rec["req"][:400], "impl": rec["flat"][:300], "driver": resp[:300]})
         elif kind == "create":
@@ -1179,6 +1525,27 @@ def run(chk):
                 report("create", f"sig.is_compliant(sig.create()) gives {rec['compliant']}", rec, resp, classes, True)
             elif rec["compliant"] != d["model"]:
                 report("create", "is_compliant(create()) true, model disagrees", rec, resp, set(), False)
+        elif kind == "create_direct":
+            sig, fl = rec["sig"], rec["fl"]
+            chk.distinct(("create_direct", rec["req"]), nontrivial=bool(sig))
+            chk.hist("create_direct", f"{'flipped' if fl else 'plain'}-sig/{'sub-ifaces' if has_iface(sig) else 'no-sub-ifaces'}")
+            if "crash" in rec:
+                report("create-direct", f"building an object directly on a signature crashed: {rec['crash']}", rec, resp, set(), True)
+                continue
+            if d["model"] != "ok:1":
+                raise common.Infra("harness mirror of a directly built object does not comply in the model: " + rec["req"][:300])
+            for route, ob in rec["objs"].items():
+                what = {"pure": "PureInterface(S)", "comp": "a Component with signature S"}[route] + \
+                       f" (S {'flipped' if fl else 'not flipped'})"
+                if "crash" in ob:
+                    report("create-direct", f"{what} crashed: {ob['crash']}", rec, resp, set(), True)
+                    continue
+                if ob["compliant"] != "ok:1":          # the property: created objects comply
+                    report("create-direct", f"S.is_compliant({what}) gives {ob['compliant']}", {**rec, "route": route}, resp,
+                           {"F10"} if (ob["compliant"] == "error:TypeError" and has_iface_array(sig)) else set(), True)
+                elif ob["obj"] != rec["mirror"]:
+                    report("create-direct", f"{what} is not the object the model's members.create() gives", {**rec, "route": route},
+                           resp, set(), False)
         elif kind == "compliant":
             sig, fl = rec["sig"], rec["fl"]
             chk.distinct(("compliant", rec["req"]))
@@ -1196,8 +1563,14 @@ def run(chk):
         elif kind == "connect":
             args = rec["args"]
             impl = rec["impl"]
-            chk.distinct(("connect", rec["req"]), nontrivial=any(a[1] for a in args))
-            chk.hist("connect_label", rec["label"]); chk.hist("n_args", len(args))
+            routes = rec.get("routes")
+            chk.distinct(("connect", rec["req"], tuple(routes or ())), nontrivial=any(a[1] for a in args))
+            chk.hist("connect_label", rec["label"] + ("+routes" if routes else "")); chk.hist("n_args", len(args))
+            for h_, r_ in enumerate(routes or []):
+                dfl = route_direct_flipped(r_, args[h_][0])
+                chk.hist("connect_arg_route", f"{r_}/{'direct-on-flipped' if dfl else 'direct-on-plain' if dfl is not None else 'create'}"
+                                              f"/{'sub-ifaces' if has_iface(args[h_][1]) else 'no-sub-ifaces'}")
+            chk.hist("connect_nonzero_default_port", any(nz_default_ports(a[1]) > 0 for a in args))
             chk.hist("model_result", d["model"].split(":")[0] + (":" + d["model"].split(":")[1] if d["model"].startswith("error") else ""))
             mres = d["model"]; sres = d["spec"]
             mconns = sorted(mres[3:].split(";")) if mres.startswith("ok:") and mres != "ok:-" else []
@@ -1301,6 +1674,8 @@ def run(chk):
                            f"({which}) gives {r['result']} instead of ConnectionError", rec, resp, set(), True)
         elif kind == "meta":
             chk.distinct(("meta", rec["req"]), nontrivial=bool(rec["sig"]))
+            chk.hist("meta_component_signature", "flipped" if rec["fl"] else "plain")
+            chk.hist("meta_nonzero_default_port", nz_default_ports(rec["sig"]) > 0)
             for tok in (d["meta"].split(";") if d["meta"] != "-" else []):
                 _dir, w, sg, iv = tok.split("=")[1].split(":")
                 if sg == "s":
@@ -1308,7 +1683,7 @@ def run(chk):
                     chk.hist("meta_signed_init", "min" if iv == -(1 << (w - 1)) else "max" if iv == (1 << (w - 1)) - 1
                              else "-1" if iv == -1 else "0" if iv == 0 else "other")
             if rec["meta"].startswith("error"):
-                classes = {"F10"} if ("F10:" in rec["meta"] and f10_shaped(rec["sig"], False)) else set()
+                classes = {"F10"} if ("F10:" in rec["meta"] and f10_shaped(rec["sig"], rec["fl"])) else set()
                 report("meta", f"metadata.as_json() failed: {rec['meta'][:100]}", rec, resp, classes, True)
                 continue
             if rec["meta"] != d["meta"]:
@@ -1334,10 +1709,16 @@ def run(chk):
     chk.extra["simulated_connects"] = n_sim
     chk.extra["exhaustive"] = {"witnesses": "F10 (p19), F13 (repro c14_connect_array_of_interfaces), dims boundary (p16) run on every invocation",
                                "corruption kinds": "every kind listed under distribution.connect_label / obj_corruption at one random site per tuple"}
-    chk.cov["rule"] = ("random signature trees (depth<=4, <=2 dims incl. 0, 12 names, shapes: unsigned/signed/int/range/Struct/Union/"
-                       "ArrayLayout/Enum(un/signed), inits); per tree: flatten of sig and sig.flip(), create+is_compliant, 3 corrupted "
-                       "objects; per tuple (2-4 args = tree + flipped twins, constants): connect + every single-point corruption kind, "
-                       "each also in a permuted order, simulation of accepted ones; plus object-side corruptions (a leaf signal of one "
+    chk.cov["rule"] = ("random signature trees (depth<=4, <=2 dims incl. 0, 12 names, shapes: unsigned/signed/int/range/StructLayout/"
+                       "UnionLayout/ArrayLayout/Enum(un/signed)/Struct and Union classes with field defaults/custom ShapeCastable with "
+                       "a non-zero default, inits incl. none); per tree: flatten of sig and sig.flip(), create+is_compliant, 3 corrupted "
+                       "objects; for sig and sig.flip() each, objects made by create(), PureInterface(S), Component(S), "
+                       "flipped(PureInterface(S.flip())), flipped(Component(S.flip())): flatten, every sub-interface's own flatten, "
+                       "is_compliant; structure of PureInterface(S)/Component(S) against the mirror of members.create(); "
+                       "per tuple (2-4 args = tree + flipped twins, constants): connect + every single-point corruption kind, "
+                       "each also in a permuted order, simulation of accepted ones; the base tuple again (and 30% of the corrupted ones) "
+                       "with the arguments made by those other routes; component metadata on plain and flipped signatures; "
+                       "plus object-side corruptions (a leaf signal of one "
                        "created interface replaced by one with another init / width, at a random leaf and at view-held "
                        "(Struct/Union/ArrayLayout/Enum) leaves): is_compliant False and ConnectionError in both orders; "
                        "metadata trees are half signed-biased with inits at min/max/-1/0; distinct = distinct request line; "
@@ -1350,7 +1731,11 @@ def run(chk):
         "signature subclasses with custom create()/__eq__/annotations are not generated (anonymous Signature only)",
         "connect() keyword arguments (handles by name) are not exercised; handles are positions",
         "metadata schema validation uses ComponentMetadata.validate (jschon, local 2020-12 catalog; no network needed)",
-        "the constant value of layouts/enums as a port's initial value is recomputed by the harness (struct/union/array packing)",
+        "the constant value of layouts/enums as a port's initial value is recomputed by the harness (struct/union/array packing; "
+        "for Struct/Union classes: field defaults overridden by the fields the initial value names; custom ShapeCastable: its default)",
+        "the object built directly on a signature (PureInterface(S), Component(S)) has no Lean definition of its own: its expected "
+        "structure is the harness mirror `direct_obj`, which the model's isCompliant must accept (else Infra); its leaves and "
+        "compliance are judged against the model/spec of S",
     ]
     chk.extra["trusted_base"] = ["harness: abstract tree -> amaranth objects (build_sig) and -> driver request (ser_sig) are two "
                                  "independent walks of the same tree"]
